@@ -3,6 +3,7 @@
 // Clock, entropy and files are the simulated ones. Properties: C01 C02 C05 (Node level).
 #include "worlds/common.hpp"
 #include "worlds/swarm_variant.hpp"
+#include "worlds/c02_control_variant.hpp"
 
 using namespace wl;
 
@@ -318,12 +319,14 @@ Scenario make_c02() {
     Scenario s;
     s.id = "C02"; s.world = "W1"; s.level = "exploration";
     s.technique = "deterministic simulation: random/boundary Config values and requested TTLs on a real Node under a simulated clock; exact lifetime arithmetic";
-    s.real_components = {"Node (sanitize_config, store_chunk)", "ChunkStore", "KademliaTable", "Manifest"};
+    s.real_components = {"Node (sanitize_config, store_chunk)", "ChunkStore", "KademliaTable", "Manifest", "control-plane variant: src/main.cpp serve main + ControlServer::handle_store (TTL header parsing and range check)"};
     s.stub_components = {"OS clock -> simulated", "entropy -> seeded"};
-    s.assumptions = {"control-plane STORE TTL refusal is checked in the daemon world (C28), not here"};
+    s.assumptions = {"the control-plane clause is judged one-directionally: an accepted STORE must carry a TTL header that denotes an integer inside the window (or none); refusals are counted, not judged (admission is C28)"};
     s.rule = "plan = Config with each TTL/rotation/announce/PoW field drawn from {negative,0,1,boundaries+-1,2^31,2^62,random} + 1..10 stores with wild requested TTLs; non-trivial = inverted/non-positive window or a requested TTL outside the window; distinct = plan hash";
-    s.gen = gen_c02; s.exec = exec_c02;
-    s.kernel_knobs = [](const Plan&) { sk::Knobs k; k.preempt_per_1024 = 0; return k; };
+    // one run in 150 is the control-plane part: the real daemon with a seeded TTL window answers STOREs with TTL headers around it
+    s.gen = [](sk::Rng& r, Tier t) { if (r.chance(1, 150)) return gen_c02_control(r); return gen_c02(r, t); };
+    s.exec = [](const Plan& p, Ctx& c) { if (p.knob("c02_control", 0)) exec_c02_control(p, c); else exec_c02(p, c); };
+    s.kernel_knobs = [](const Plan& p) { if (p.knob("c02_control", 0)) return c02_control_knobs(p); sk::Knobs k; k.preempt_per_1024 = 0; return k; };
     s.quick_runs = 40000; s.thorough_runs = 2000000; s.quick_secs = 30; s.thorough_secs = 600;
     return s;
 }
